@@ -23,7 +23,7 @@ RULE = (
     "(accession + description), 0-3 alternative proteins with mixed decoy prefixes, 0-3 mod_aminoacid_mass at ascending "
     "positions (incl. positions >= 10 and masses of different text length), a per-document set of 1-4 search_score "
     "names with values that avoid the log-transform heuristic (plus an optional E-value-like score with exact zeros spanning many orders of magnitude, checked for order preservation), optional hit attributes in all hits or none, with/without "
-    "XML namespace, element order variants; negative variants: Percolator score name, non-XML text, well-formed XML of another schema (mzML-, protXML-like, generic) alone or among valid files. Non-trivial: some "
+    "XML namespace, element order variants; negative variants: Percolator score name, non-XML text, well-formed XML of another schema (mzML-, protXML-like, generic) or a PepXML document whose tail is missing (ill-formed XML), alone or among valid files; hits may carry is_rejected=0/1. Non-trivial: some "
     "hit has >=2 modifications or mixed target/decoy proteins, or the document has >=2 runs. Distinct = distinct JSON."
 )
 ASSUMPTIONS = [
@@ -120,7 +120,11 @@ def _case(draw, tier):
         files[draw(st.integers(0, len(files) - 1))]["drop_last_score"] = draw(st.booleans())
     return {"files": files, "score_names": score_names, "opt_attrs": kind != "none",
             "decoy_prefix": draw(st.sampled_from(["decoy_", "decoy_", "rev_"])), "exclude": draw(st.booleans()),
-            "negative": draw(st.sampled_from(["none"] * 10 + ["percolator", "notxml", "otherxml", "otherxml"])),
+            "negative": draw(st.sampled_from(["none"] * 10 + ["percolator", "notxml", "otherxml", "otherxml", "truncated", "truncated"])),
+            # a document whose tail is missing (interrupted copy): cut at this fraction of its text
+            "cut": draw(st.sampled_from([0.3, 0.5, 0.7, 0.9, 0.97, 0.995, 0.9999])),
+            # the optional hit attribute is_rejected: absent, "0" everywhere, or "1" on some hits (they are hits like any other)
+            "is_rejected": draw(st.sampled_from([None, None, "0", "mixed", "mixed"])),
             "neg_file": draw(st.integers(0, 1)), "neg_doc": draw(st.integers(0, 2))}
 
 
@@ -156,6 +160,9 @@ def render(f, case):
                     mask = f.get("opt_mask") or [bool(case["opt_attrs"])] * 3
                     opt = "".join(f' {a}="{v}"' for a, v, on in zip(("num_missed_cleavages", "num_tol_term", "num_matched_peptides"), h["opt"], mask) if on)
                     descr = " Some protein OS=Homo sapiens" if h["protein_descr"] else ""
+                    rej = case.get("is_rejected")
+                    if rej:
+                        opt += f' is_rejected="{rej if rej != "mixed" else (idx + rank) % 2}"'
                     out.append(f'<search_hit hit_rank="{rank}" peptide="{h["peptide"]}" protein={quoteattr(_pfx(h["protein"], case) + descr)} '
                                f'num_tot_proteins="{1 + len(h["alts"])}" calc_neutral_pep_mass="{h["calc_mass"]!r}" massdiff="0.1"{opt}>')
                     alts = [f'<alternative_protein protein={quoteattr(_pfx(a, case) + (" alt descr" if h["protein_descr"] else ""))}/>' for a in h["alts"]]
@@ -223,6 +230,9 @@ def check(case):
                 p.write_text("this is not xml at all\njust text\n")
             elif neg == "otherxml" and bad:
                 p.write_text(OTHER_XML[case.get("neg_doc", 0) % len(OTHER_XML)])
+            elif neg == "truncated" and bad:
+                doc = render(f, case)
+                p.write_text(doc[:max(60, min(len(doc) - 3, int(len(doc) * case.get("cut", 0.7))))])
             else:
                 p.write_text(render(f, case))
             paths.append(str(p))
@@ -234,7 +244,7 @@ def check(case):
             except ValueError:
                 return {"nontrivial": True, "classes": cls, "counters": {"negative": 1}}
             except Exception as e:  # noqa: BLE001
-                if neg == "otherxml":
+                if neg in ("otherxml", "truncated"):
                     # the statement asks for "an error"; for well-formed XML of another schema mokapot raises KeyError
                     return {"nontrivial": True, "classes": cls + ["rejected-by-" + type(e).__name__], "counters": {"negative": 1}}
                 raise Violation("bad-input-wrong-error", f"{neg}: {type(e).__name__}: {e}") from None
